@@ -142,7 +142,7 @@ def build_coq(targets=None, timeout=3000):
 
 def build_model():
     """Extract the models and build model_run; returns the path of the binary."""
-    ok, out = build_coq(['Extract.vo', 'ExtractPlan.vo', 'ExtractDyndep.vo', 'ExtractScan.vo', 'ExtractClean.vo', 'ExtractStatus.vo', 'ExtractBuildLog.vo', 'ExtractManifest.vo', 'ExtractDepsLog.vo', 'Engine/HistRun.vo', 'Engine/HistDry.vo', 'Engine/HistFailDefs.vo', 'Engine/HistDepsDefs.vo', 'Engine/HistFaithful.vo', 'Engine/HistDepsFaithful.vo', 'Engine/HistCrashDefs.vo', 'Engine/HistParDefs.vo', 'Engine/HistDepfileDefs.vo', 'Engine/HistFailFaithful.vo', 'Engine/HistDepfileFaithful.vo', 'Engine/HistFailKDefs.vo', 'Engine/HistDyndepDefs.vo'])
+    ok, out = build_coq(['Extract.vo', 'ExtractPlan.vo', 'ExtractDyndep.vo', 'ExtractScan.vo', 'ExtractClean.vo', 'ExtractStatus.vo', 'ExtractBuildLog.vo', 'ExtractManifest.vo', 'ExtractDepsLog.vo', 'Engine/HistRun.vo', 'Engine/HistDry.vo', 'Engine/HistFailDefs.vo', 'Engine/HistDepsDefs.vo', 'Engine/HistFaithful.vo', 'Engine/HistDepsFaithful.vo', 'Engine/HistCrashDefs.vo', 'Engine/HistParDefs.vo', 'Engine/HistDepfileDefs.vo', 'Engine/HistFailFaithful.vo', 'Engine/HistDepfileFaithful.vo', 'Engine/HistFailKDefs.vo', 'Engine/HistDyndepDefs.vo', 'Engine/HistFailKFaithful.vo', 'Engine/HistDyndepFaithful.vo'])
     if not ok:
         raise BuildError('the model definitions no longer compile:\n' + out[-3000:])
     with Lock('model'):
